@@ -1027,6 +1027,12 @@ val hook_sites : node -> (char list * (n * n)) list
 
 val is_ns_ident : node -> bool
 
+val stop_kind : node -> bool
+
+val meas : (node -> nat option) -> nat -> node -> nat
+
+val no_stop : node -> nat option
+
 val ns_count : node -> nat
 
 val any_node : (node -> bool) -> node -> bool
